@@ -58,21 +58,19 @@ func (s *badgerStore) Close() error {
 	return s.db.Close()
 }
 
-// maxConflictRetries is the number of times a transaction is retried when it
-// conflicts with a concurrent transaction.
-const maxConflictRetries = 64
-
 // update runs fn in a read-write transaction. Badger's transactions are
 // optimistic: when another transaction commits a key that this one read, the
 // commit fails with ErrConflict and the transaction needs to be run again.
+// It is run again until it commits: every conflict means that some other
+// transaction did commit, and giving up after a number of attempts would fail
+// (or, for callers that carry on, silently drop) a write only because the
+// record it touches is a busy one.
 func (s *badgerStore) update(fn func(txn *badger.Txn) error) error {
-	var err error
-	for i := 0; i < maxConflictRetries; i++ {
-		if err = s.db.Update(fn); err != badger.ErrConflict {
+	for {
+		if err := s.db.Update(fn); err != badger.ErrConflict {
 			return err
 		}
 	}
-	return err
 }
 
 func (s *badgerStore) CheckAndSaveNonce(ID string, nonce int64) error {
